@@ -108,7 +108,7 @@ spec("C02", "Config-class round trip",
 
 spec("C03", "Function / method round trip",
      [named(O.rule_order, "rule_order_function", only=("emit.function",)), A.rule_align_emit, A.rule_align_parse, TB.rule_table_kind, N.rule_null1, N.rule_null2,
-      scoped(FA.rule_falsy, "falsy_function", "emit.function", "parse.function"), named(FW.rule_fwd, "rule_fwd", accepted=FWD_ACCEPTED), O.rule_kwarg_last, det3("function", "emit.function", "parse.function"), pit("function", "emit.function", "parse.function")],
+      scoped(FA.rule_falsy, "falsy_function", "emit.function", "parse.function"), named(FW.rule_fwd, "rule_fwd", accepted=FWD_ACCEPTED), O.rule_kwarg_last, O.rule_order_merge, det3("function", "emit.function", "parse.function"), pit("function", "emit.function", "parse.function")],
      "Necessary conditions: (ORDER) one argument per non-**kwargs parameter in order, named by the key, with the name-only **kwargs partition and its complement both "
      "consumed; (ALIGN-emit) defaults/kw_defaults are built one per argument from the same sequence (symbolic length identities over all paths); (ALIGN-parse) "
      "signature defaults are padded to exactly the argument count and keep their positions; (TABLE-kind) self/cls/static and the **kwargs suffix agree between "
@@ -140,7 +140,7 @@ spec("C06", "Emitted code is valid Python",
 
 spec("C07", "Parsing faithful to Python's view",
      [lambda prog, rep, tier: D.rule_det1(prog, rep, tier, scope=prog.reachable([prog.fn("parse.function"), prog.fn("parse.class_")]), accepted=DET1_ACCEPTED),
-      A.rule_align_parse, O.rule_sigcover, O.rule_first_match, O.rule_kwarg_last, det3("parse", "parse.function", "parse.class_"), pit("parse", "parse.function", "parse.class_")],
+      A.rule_align_parse, O.rule_sigcover, O.rule_first_match, O.rule_kwarg_last, O.rule_order_merge, det3("parse", "parse.function", "parse.class_"), pit("parse", "parse.function", "parse.class_")],
      "Necessary conditions: (DET-1) on the parse path no iteration order of an unordered collection reaches the parameter mapping (order independent of run-to-run "
      "variation); (ALIGN-parse) signature defaults stay aligned with their arguments; (SIGCOVER) args, kwonlyargs and **kwarg each reach the result on some read that "
      "is not guarded by docstring-derived data; (FIRST-MATCH) the method merged into a class is the first definition of that name in breadth-first order (the class's own, not a nested class's). (KWARG-LAST) a documented `**kwargs` is out of the parameter mapping while the signature merge appends the undocumented parameters and is inserted (or moved to the end) afterwards, so it stays the last parameter as in the signature. (DET-3, scoped) no function on this property's code path writes state that outlives the call (module globals/objects, function or class attributes, mutated mutable defaults, memoised mutable results): the conversion is not history-dependent.",
@@ -150,7 +150,7 @@ spec("C07", "Parsing faithful to Python's view",
 
 spec("C08", "Fixed point after one pass",
      [TB.rule_table_announce, scoped(FA.rule_falsy, "falsy_defaults", "defaults_utils.set_default_doc", "defaults_utils.extract_default", "emitter_utils.interpolate_defaults"),
-      coord("rule_coord_defaults", "defaults_utils.extract_default", "defaults_utils.set_default_doc"), named(FW.rule_fwd, "rule_fwd", accepted=FWD_ACCEPTED), det3("all", "emit.docstring", "emit.class_", "emit.function", "emit.argparse_function", "parse.docstring", "parse.class_", "parse.function", "parse.argparse_ast"), pit("all", "emit.docstring", "emit.class_", "emit.function", "emit.argparse_function", "parse.docstring", "parse.class_", "parse.function", "parse.argparse_ast"),
+      coord("rule_coord_defaults", "defaults_utils.extract_default", "defaults_utils.set_default_doc"), named(FW.rule_fwd, "rule_fwd", accepted=FWD_ACCEPTED), O.rule_order_merge, det3("all", "emit.docstring", "emit.class_", "emit.function", "emit.argparse_function", "parse.docstring", "parse.class_", "parse.function", "parse.argparse_ast"), pit("all", "emit.docstring", "emit.class_", "emit.function", "emit.argparse_function", "parse.docstring", "parse.class_", "parse.function", "parse.argparse_ast"),
       C.rule_call_dispatch],
      "Necessary condition: (TABLE-announce b) each writer of the default sentence recognises its own sentence as 'already present' - either by calling the reader "
      "itself or by a substring of the written phrase - otherwise one more sentence is appended on every pass. (COORD) no position measured on a transformed copy of the prose (strip / casefold / replace change lengths; also through a search helper given a normalising callable) is used to cut the original prose. (FWD) an option the caller was given (word_wrap, emit_default_doc, docstring_format, ...) is forwarded to every callee that has the same option with a default - directly, through a partial or a wrapper; the confirmed exceptions are listed with reasons (props.FWD_ACCEPTED) or lie on the live-object path. (DET-3, scoped) no function on this property's code path writes state that outlives the call (module globals/objects, function or class attributes, mutated mutable defaults, memoised mutable results): the conversion is not history-dependent.",
